@@ -163,6 +163,67 @@ pub fn run(_st: &mut State, op: &str, cmd: &Value) -> Value {
                 value(json!({"single": single, "all": all, "from_keys": from_keys}))
             })
         }
+        "assets.sklb" => {
+            let b = get_bytes(&cmd["bytes"]);
+            guarded(|| value(opt(physis::skeleton::Skeleton::from_existing(&b), |s| {
+                Value::Array(s.bones.iter().map(|x| json!({
+                    "name": sbytes(&x.name), "parent": x.parent_index,
+                    "pos": x.position.iter().map(|f| f32bits(*f)).collect::<Vec<Value>>(),
+                    "rot": x.rotation.iter().map(|f| f32bits(*f)).collect::<Vec<Value>>(),
+                    "scale": x.scale.iter().map(|f| f32bits(*f)).collect::<Vec<Value>>()})).collect())
+            })))
+        }
+        "assets.pbd" => {
+            let b = get_bytes(&cmd["bytes"]);
+            guarded(|| value(opt(physis::pbd::PreBoneDeformer::from_existing(&b), |p| {
+                Value::Array(cmd["queries"].as_array().cloned().unwrap_or_default().iter().map(|q| {
+                    let (f, t) = (q[0].as_u64().unwrap_or(0) as u16, q[1].as_u64().unwrap_or(0) as u16);
+                    guarded(|| value(opt(p.get_deform_matrices(f, t), |m| {
+                        Value::Array(m.bones.iter().map(|x| json!({"name": sbytes(&x.name),
+                            "m": x.deform.iter().map(|f| f32bits(*f)).collect::<Vec<Value>>()})).collect())
+                    })))
+                }).collect())
+            })))
+        }
+        "assets.cmp" => {
+            // the table sits behind a fixed offset: the file is `prefix` filler bytes followed by the logged tail
+            let mut b = vec![0xA5u8; geti(cmd, "prefix") as usize];
+            b.extend(get_bytes(&cmd["tail"]));
+            guarded(|| value(opt(physis::cmp::CMP::from_existing(&b), |c| {
+                Value::Array(c.parameters.iter().map(|r| {
+                    let f = [r.male_min_size, r.male_max_size, r.male_min_tail, r.male_max_tail, r.female_min_size, r.female_max_size,
+                             r.female_min_tail, r.female_max_tail, r.bust_min_x, r.bust_min_y, r.bust_min_z, r.bust_max_x, r.bust_max_y, r.bust_max_z];
+                    Value::Array(f.iter().map(|x| f32bits(*x)).collect())
+                }).collect())
+            })))
+        }
+        "assets.tera" => {
+            let b = get_bytes(&cmd["bytes"]);
+            let plates = |t: &physis::tera::Terrain| -> Value {
+                Value::Array(t.plates.iter().map(|p| json!({"x": f32bits(p.position.0), "y": f32bits(p.position.1), "file": sbytes(&p.filename)})).collect())
+            };
+            guarded(|| {
+                let t = physis::tera::Terrain::from_existing(&b);
+                let parsed = opt(t.as_ref(), |t| plates(t));
+                let written = opt(t.as_ref().and_then(|t| t.write_to_buffer()), |w| bytes(&w));
+                let reparsed = if written["some"] == true {
+                    opt(physis::tera::Terrain::from_existing(&get_bytes(&written["v"])), |t| plates(&t))
+                } else { none() };
+                value(json!({"parsed": parsed, "written": written, "reparsed": reparsed}))
+            })
+        }
+        "assets.lgb" => {
+            use physis::layer::{LayerChunk, LayerGroup};
+            let g = LayerGroup { file_id: get_w32(&cmd["file_id"]), chunks: vec![LayerChunk {
+                chunk_id: get_w32(&cmd["chunk_id"]), layer_group_id: get_w32(&cmd["group"]) as i32, name: get_str(&cmd["name"]), layers: Vec::new() }] };
+            guarded(|| {
+                let w = g.write_to_buffer();
+                let re = w.as_ref().and_then(|b| LayerGroup::from_existing(b));
+                value(json!({"written": opt(w, |b| bytes(&b)),
+                             "reparsed": opt(re, |r| json!({"file_id": w32(r.file_id), "chunks": r.chunks.iter().map(|c| json!({
+                                 "chunk_id": w32(c.chunk_id), "group": w32(c.layer_group_id as u32), "name": sbytes(&c.name), "layers": c.layers.len()})).collect::<Vec<Value>>()}))}))
+            })
+        }
         _ => toolerror(&format!("unknown op {op}")),
     }
 }
